@@ -237,7 +237,7 @@ def run(ctx, args):
     shapes = universe.enumerate_shapes(ctx, 1)
     prog = universe.base_program(shapes, extra=universe.fast_extras())
     sc = schemalib.schema_of(prog)
-    cases = c02.gen_cases(ctx, sc, 40 if thorough else 24, 2, 3 if thorough else 2,
+    cases = c02.gen_cases(ctx, sc, 40, 2, 3 if thorough else 2,
                           "wide" if thorough else "narrow", "WireGen[fast]")
     if not any(c["k"] == "r" and c["exp"]["err"] for c in cases):
         raise vlib.MachineryError("vacuous: no read case with a missing required field")
@@ -245,7 +245,7 @@ def run(ctx, args):
     if thorough:
         # (-g fastgo:value_type_in_container does not compile: C01 known finding C01-fastgo-value-type-in-container)
         labs += [("fku", prog, ["keep_unknown_fields"]), ("fvt", prog, ["enum_as_int_32", "naming_style=golint"])]
-    run_lab(ctx, labs, sc, cases, "fast", 1 if thorough else 2)
+    run_lab(ctx, labs, sc, cases, "fast", 1)
     if thorough:
         # depth-2 type shapes (containers of containers of containers), a seed-rotated sample of ~240 shapes
         shapes2 = [s for s in universe.enumerate_shapes(ctx, 2) if json.dumps(s).count('"v"') >= 2]
